@@ -69,7 +69,7 @@ FifoOk(c, i) ==
         \A k \in 1..(PosIn(norder, i) - 1) :
             ~(Eligible(c, norder[k]) /\ meta[norder[k]].prio = meta[i].prio)
 
-AllChk == {"fifo", "early", "latency", "ttl", "holder", "content"}
+AllChk == {"fifo", "early", "latency", "ttl", "holder", "content", "route"}
 PlaceFor(m) == IF m.due = NoTime THEN "n" ELSE "d"
 
 -----------------------------------------------------------------------------
@@ -99,7 +99,8 @@ Expire(i, chk) ==
     /\ Live(i) /\ ("ttl" \in chk => Overdue(i))
     /\ \/ loc[i] = U("n")
        \/ loc[i] = U("d") /\ ("early" \in chk => DueOk(i))
-    /\ \E c \in Consumers : cons[c].on /\ cons[c].cat = "n" /\ cons[c].q = meta[i].q
+    \* (C11: ... and only by a consumer that serves its topic -- a message nobody here has an actor for is left alone)
+    /\ \E c \in Consumers : cons[c].on /\ cons[c].cat = "n" /\ cons[c].q = meta[i].q /\ ("route" \in chk => Matches(c, i))
     /\ loc' = [loc EXCEPT ![i] = U("x")]
     /\ norder' = Rm(norder, i)
     /\ UNCHANGED <<now, st, meta, holder, origin, deliv, ret, cons, transit, pend>>
@@ -132,7 +133,7 @@ Take(c, i, chk) ==
 (* consume() of consumer c returns message i to the client: only the holder, only once per take. *)
 Deliver(c, i, chk) ==
     /\ "holder" \in chk => (Held(c, i) /\ ~deliv[i])
-    /\ Matches(c, i)
+    /\ "route" \in chk => Matches(c, i)      \* (C01 at the broker, C11 at the worker: only messages of its own queue and topics)
     /\ ("ttl" \in chk /\ cons[c].cat = "n") => ~Overdue(i)       \* C12: never handed over once expired
     /\ deliv' = [deliv EXCEPT ![i] = TRUE]
     /\ UNCHANGED <<now, st, loc, meta, holder, origin, ret, cons, norder, transit, pend>>
